@@ -162,7 +162,28 @@ def check_prefixed_line(ev, text, toks, record, counts):
     return None  # keep checking the other lines of the listing
 
 
+def extra(tier, seed, rep):
+    """Long listings (every 97th instruction with operands) whose length sits on / next to the block sizes a buffered writer of the
+    stream would use: each record still carries its own operands, in order, and nothing of its neighbour's."""
+    from vlib import longlist
+
+    longlist.run_exact_lengths(rep, Eval, lengths=sorted({c + d for c in (4096, 8192, 32768, 65536, 131072) for d in (-1, 0, 1)}))
+
+
 def evaluate(case):
+    if "exact_length" in case:
+        from vlib import longlist
+
+        ev = Eval()
+        ev.tags = ["exact-length-listing"]
+        ev.nontrivial = True
+        ev.subcases = case["exact_length"]
+        dev = longlist.exact_length_case(case["exact_length"])
+        if dev and dev.get("inconclusive"):
+            ev.inconclusive += 1
+        elif dev:
+            ev.deviations.append(dev)
+        return ev
     ev = Eval()
     route = case["route"]
     ev.tags = [f"route={route}"]
